@@ -263,7 +263,9 @@ def render(spec):
             f"    return getattr(v, 'tag', 0) % {d['mod']} == {d['eq']}\n"
         )
     self_flag = bool(spec.get("meta", {}).get("self"))
-    for mid, m in spec["methods"].items():
+    # canonical order (not dict insertion order): a spec that went through a JSON file with sorted
+    # keys must render to the same source, line for line
+    for mid, m in sorted(spec["methods"].items()):
         out.append(method_src(mid, m, self_flag))
     return "\n".join(out)
 
